@@ -646,8 +646,12 @@ class Polygon(Shape2D):
         q_dot_norm = np.dot(q, self.normal)
         q = q - q_dot_norm[:, np.newaxis] * self.normal
         q_sqs = np.sum(q * q, axis=-1)
-        zero_q = np.isclose(q_sqs, 0)
-        form_factor[zero_q] = self.area
+        # Decide "in-plane q is zero" relative to the size of the polygon, and keep
+        # the phase of the polygon's position, which is first order in q.
+        centroid = self.centroid
+        extent_sq = np.max(np.sum((self._vertices - centroid) ** 2, axis=-1))
+        zero_q = np.isclose(q_sqs * extent_sq, 0)
+        form_factor[zero_q] = self.area * np.exp(-1j * np.dot(q[zero_q], centroid))
 
         # Add the contribution over all edges of the face.
         verts = self._vertices
